@@ -679,3 +679,12 @@ def check(ctx):
     check_coverage(ctx)
     check_oneshot(ctx)
     check_accept(ctx)
+    # a requirement holds in the scene only if the predicate it evaluates is right: the structural conditions on the
+    # collision / containment shortcuts (C04) and on the visibility predicate (C17) are necessary conditions here too
+    from . import c04, c17
+
+    c04.check_polarity(ctx, R="C02.pred.polarity")
+    c04.check_fallthrough(ctx, R="C02.pred.exhaustive")
+    c04.check_planar(ctx, R="C02.pred.planar")
+    c17.check_occluders(ctx, R="C02.pred.occluders")
+    c17.check_plumbing(ctx, R="C02.pred.plumbing")
